@@ -35,6 +35,11 @@ type c25Scenario struct {
 	NoDyn   bool        `json:"no_dyn,omitempty"`
 	Faults  []wireFault `json:"faults,omitempty"`
 	Reframe *c25Reframe `json:"reframe,omitempty"` // TLS 1.3, fault-free runs: a peer that frames its records differently (legal per RFC 8446)
+	// ReadDlUs > 0: the readers work with short read deadlines (this many simulated microseconds per Read) and simply
+	// read on after a timeout — with a slow, re-segmenting transport the deadline often fires inside a record
+	ReadDlUs int `json:"read_deadline_us,omitempty"`
+	// HalfClose: bit d set = side d calls CloseWrite as soon as it has nothing more to send and then reads on
+	HalfClose int `json:"half_close,omitempty"`
 	Tape    []int       `json:"tape,omitempty"`
 }
 
@@ -140,6 +145,15 @@ func genC25(seed uint64, tier string) any {
 	if !faulty && sc.Version != vTLS13 && r.Chance(1, 2) {
 		// TLS 1.0-1.2: the peer's records are re-framed (ref12.go): long CBC padding, empty fragments, splits
 		sc.Reframe = &c25Reframe{Dirs: 1 + r.Intn(3), Rate: 1 + r.Intn(3)}
+	}
+	if !faulty && r.Chance(1, 4) {
+		sc.ReadDlUs = []int{20, 300, 5000, 60000}[r.Intn(4)]
+		if sc.Net.LatMaxUs > 40*sc.ReadDlUs {
+			sc.ReadDlUs = sc.Net.LatMaxUs / 40 // keep the number of timeouts per segment (and so the run length) bounded
+		}
+	}
+	if !faulty && r.Chance(1, 4) {
+		sc.HalfClose = 1 + r.Intn(3)
 	}
 	if faulty {
 		nf := r.Pick([]int{0, 6, 2, 1})
@@ -251,7 +265,19 @@ func execC25(t *testing.T, scAny any, keepLog bool) *Outcome {
 			}
 			sd.filter.Armed = true
 			expectIn := 0
-			for _, ph := range sc.Phases {
+			lastWrite := -1
+			for i, ph := range sc.Phases {
+				if ph.Dir == me {
+					lastWrite = i
+				}
+			}
+			spins := 0
+			for pi, ph := range sc.Phases {
+				if pi == lastWrite+1 && sc.HalfClose&(1<<uint(me)) != 0 {
+					// nothing more to send: half-close, then keep reading what the peer still sends
+					c.CloseWrite()
+					o.count("probe.half_closed_then_read", 1)
+				}
 				if ph.Dir == me {
 					for _, n := range ph.Writes {
 						p := pattern(me, len(sd.attempted), n)
@@ -275,7 +301,22 @@ func execC25(t *testing.T, scAny any, keepLog bool) *Outcome {
 					}
 					for len(sd.read) < expectIn {
 						buf := make([]byte, 1+rr.Intn(sc.ReadMax))
+						if sc.ReadDlUs > 0 {
+							c.SetReadDeadline(s.Now().Add(time.Duration(sc.ReadDlUs) * time.Microsecond))
+						}
+						t0 := s.Now()
 						k, err := c.Read(buf)
+						if ne, ok := err.(interface{ Timeout() bool }); sc.ReadDlUs > 0 && ok && ne.Timeout() && spins < 20 {
+							// a read deadline is not the end of the stream: read on (a Read that keeps timing out without
+							// any simulated time passing is given up after 20 rounds and shows as an incomplete stream)
+							spins++
+							if k > 0 || s.Now().After(t0) {
+								spins = 0
+							}
+							sd.read = append(sd.read, buf[:k]...)
+							o.count("probe.read_resumed_after_deadline", 1)
+							continue
+						}
 						if k > sd.maxRead {
 							sd.maxRead = k
 						}
